@@ -700,6 +700,19 @@ func (e *SpecEnv) evalCall(x *ast.CallExpr) Term {
 		m := e.eval(arg(0))
 		mi := vc.mapInfo(m.T)
 		return boolTerm(vc.cardFacts(e.st, mi, m.S))
+	case "jsondecoded":
+		// jsondecoded(T, data): what json.Unmarshal yields for a target of type T (assumed function of the bytes)
+		t, _ := vc.resolveType(arg(0), e.pkg)
+		d := e.eval(arg(1))
+		fn := "abs.jsonDecoded$" + sanitize(typeKey(t))
+		vc.u.declFun(fn, "("+d.Sort+") "+vc.u.SortOf(t))
+		return vc.mk("("+fn+" "+d.S+")", t)
+	case "jsonok":
+		t, _ := vc.resolveType(arg(0), e.pkg)
+		d := e.eval(arg(1))
+		okf := "abs.jsonOK$" + sanitize(typeKey(t))
+		vc.u.declFun(okf, "("+d.Sort+") Bool")
+		return boolTerm("(" + okf + " " + d.S + ")")
 	case "setadd":
 		a := e.eval(arg(0))
 		x := e.eval(arg(1))
